@@ -15,13 +15,13 @@ CLAIMED = {
          "800 000 (quick) / 4 M (thorough) generated streams; those the strict reader accepts from a root element (acceptance rate of mutated streams measured, gate >= 10%) are re-written item by item through TagWriter::write (every call must be Ok) and re-read; the two item sequences must be identical (floats by bits). In a third of the cases the stream is also read with a generated set of buffered masters and those Full items are handed back to the writer: the re-read must again equal the first (unbuffered) reading.",
          "trusted: nothing beyond the harness drivers; rejected streams are outside the property", "4.2"),
  "C13": ("proptest documents with one injected fault of each class × exhaustive enumeration of all 8 tolerance subsets; plus mutated inputs × 8 subsets (metamorphic prefix relation); exhaustive size-limit threshold table",
-         "160 000 + 160 000 (quick) / 800 000 + 800 000 (thorough) inputs, each read under all 8 subsets of tolerated classes: own-class error kind at the fault's offset when not tolerated, never when tolerated, no raw tags without InvalidTagIds, strict items are a prefix of tolerant items; the size limit's threshold (M passes, M+1 fails, default 4e9 untouched) is enumerated for 6 limits × 5 sizes × 3 widths.",
+         "160 000 + 160 000 (quick) / 800 000 + 800 000 (thorough) inputs, each read under all 8 subsets of tolerated classes: own-class error kind at the fault's offset when not tolerated, never when tolerated, no raw tags without InvalidTagIds, strict items are a prefix of tolerant items; the size limit's threshold (M passes, M+1 fails, default 4e9 untouched) is enumerated first, on master headers, for 6 limits × 5 sizes × 3 widths × all 8 tolerance subsets × {root, inside a known-size parent it overruns, inside an unknown-size parent}: no tolerance switch relaxes the limit.",
          "trusted: reference encoder layout for the fault's offset; faults are built so that the other classes' conditions are false at the faulty element", "4.13"),
  "C14": ("proptest documents × exhaustive enumeration of every tag boundary as junk insertion point; oracle = undamaged parse shifted by the junk length, precondition decided from the reference layout",
          "48 000 (quick) / 250 000 (thorough) known-size documents, junk of 1-12 bytes (byte values that start no declared id) inserted at every boundary between two tags and at one random position; read from a slice or in short reads, with a small or default buffer, strictly or with hierarchy / oversized-element errors tolerated (never invalid ids: junk stays junk); with the precondition true: same prefix, exactly one error, try_recover Ok, rest identical with shifted offsets; always: no panic, only EOF/read errors from try_recover, never backwards.",
          "trusted: reference encoder layout for the precondition; the undamaged parse (anchored by C01/C03)", "4.14"),
  "C17": ("proptest over element headers with adversarial declared sizes × limits × capacities × tolerance, measured with a counting global allocator (thread-local peak); oracle = explicit byte bounds",
-         "320 000 + 320 000 (quick) / 1.5 M + 1.5 M (thorough) cases: a header declaring S in every representable width at root / inside known / inside unknown-size parents under limit M: S > M must be rejected with peak heap growth <= 2·cap + 4 KiB and no oversized read request — also when next() is simply called again after the size error; S <= M with missing payload <= 4·max(S,cap) + 4 KiB + payload present; whole parses of generated / mutated / adversarial streams under limit M <= 4·max(M,cap) + 8 KiB (the factor 4 is what a moving realloc of the doubling Vec costs, DESIGN 14.7); 16 000 (quick) / 60 000 (thorough) long streams of elements just within the limit: memory must not creep up.",
+         "200 000 + 200 000 + 320 000 (quick) / 1 M + 1 M + 1.5 M (thorough) cases (a first pass with every declared size <= 64 MiB, so that a limit that is not enforced costs measurable megabytes rather than the process; then the whole range): a header declaring S in every representable width at root / inside known / inside unknown-size parents under limit M: S > M must be rejected with peak heap growth <= 2·cap + 4 KiB and no oversized read request — also when next() is simply called again after the size error; S <= M with missing payload <= 4·max(S,cap) + 4 KiB + payload present; whole parses of generated / mutated / adversarial streams under limit M <= 4·max(M,cap) + 8 KiB (the factor 4 is what a moving realloc of the doubling Vec costs, DESIGN 14.7); 16 000 (quick) / 60 000 (thorough) long streams of elements just within the limit: memory must not creep up.",
          "trusted: the counting allocator (thread-local); declared sizes within the limit are capped at 4 MiB for cost; only heap is measured", "4.17"),
  "C09": ("proptest over (forest, collapse choices, per-element options, short-write schedule); paired-run byte equality + reference header walk of the output",
          "320 000 (quick) / 1.5 M (thorough) generated documents are written in paired presentations (Full vs Start/End — masters inside a Full item given as nested Full or as Start/End children of it —, deprecated vs option-based unknown size, explicit widths vs defaults, scripted short-write destination vs Vec); outputs must be byte-identical, explicit widths are read back with the reference header parser and ids/payloads must be unchanged.",
